@@ -128,6 +128,7 @@ type RunConfig struct {
 	MustFail     bool // must-fail twin: a violation is the expected outcome
 	Prefix       []int64
 	AllowBlocked bool
+	HashTransparent bool
 	NoMerge      bool
 	MaxSchedPoints int
 }
